@@ -18,9 +18,12 @@ C36  CSRLIN/POS inside the screen; CSRLIN/POS equal to the reference model's lan
      == model cell; deferred-wrap placement model for plain text; rows outside an active VIEW PRINT
      window unchanged by PRINT/CLS.
 C30  for every graphics statement: before/after snapshot of all pages; graphics mode: changes only
-     on the active page and only inside the viewport (VIEW itself: inside the new viewport plus
-     its one-pixel border ring); reference display unchanged while the active page is hidden;
-     text mode: error 5 and nothing (pixels, characters, cursor) changes.
+     on the active page and only inside the viewport that was current when the statement started
+     (VIEW itself draws its fill and border with the viewport unset, so only the page is judged
+     for it); reference display unchanged while the active page is hidden; text mode: error 5 and
+     nothing (pixels of any page, characters, cursor) changes.  The statement is run from a stored
+     three-line program with ON ERROR GOTO so that no error message is printed on the screen
+     (a direct-mode error message is itself text/pixels on the active page).
 
 Deliberately left out (property silent or corner unspecified): exact effect of control
 characters, PRINT zones, key bar contents, a PRINT newline issued in the column-80 overflow state
@@ -63,7 +66,7 @@ BATCH = 10
 
 
 def quick_runs(prop):
-    return {'C35': 1500, 'C36': 2400, 'C30': 1400}.get(prop, 1200)
+    return {'C35': 1500, 'C36': 3600, 'C30': 2800}.get(prop, 1200)
 
 
 ###############################################################################
@@ -920,6 +923,8 @@ def _body(run, case):
                 w.video.drain()
         # end of run: always a full drain and comparison
         _drain_and_compare(c, 'end')
+        if w.stats.get('max_video_backlog', 0) > 0:
+            run.fault('consumer-lag')
         if w.stats.get('max_video_backlog', 0) > 200:
             run.probe('backlog>200 (engine back-pressure loop ran)')
         run.probe('comparisons', c.compares)
@@ -991,6 +996,10 @@ def _drain_and_compare(c, label):
     ref = disp.pixel_rows()
     c.compares += 1
     where = 'after op %r (lag %d)' % (label, c.lag)
+    if c.prop == 'C30' and c.vpage is not None and c.text_mode is not None:
+        # the page accessor used by the C30 snapshots must show what the public API shows
+        if b''.join(px) != _page_bytes(c, c.vpage):
+            raise K.HarnessError('page accessor for visible page %r disagrees with get_pixels() %s' % (c.vpage, where))
     if len(px) != len(ref) or (px and len(px[0]) != len(ref[0])):
         run.violate('C35', 'geometry:canvas-size-differs',
                     'display canvas %dx%d, get_pixels %dx%d %s' % (
@@ -1612,8 +1621,7 @@ def _op_restart(c, path):
     new = RefDisplay()
     w.video.consumer = new
     c.disp = new
-    c.d = suspend_resume(c.d, path)
-    run.fault('restart')
+    c.d = suspend_resume(c.d, path)     # counts the 'restart' fault
     w.video.drain()
     _scan_signals(c)
     run.probe('rebuild path (fresh display attached after resume)')
